@@ -68,6 +68,11 @@ type RTScn struct {
 	// Overlap: a sibling request overlaps this one on the same Traceroute value (the HTTP server keeps one for all its
 	// requests); the sibling asks for the same thing except that it does NOT ask for private hops to be skipped
 	Overlap bool `json:"overlap,omitempty"`
+	// SiblingQueries / SiblingE2e (with Overlap2): a sibling request for the same destination with these counts overlaps
+	// this one on the same Traceroute value; both answers are kept (RTResult.Res2 / Err2)
+	Overlap2       bool `json:"overlap2,omitempty"`
+	SiblingQueries int  `json:"sibling_queries,omitempty"`
+	SiblingE2e     int  `json:"sibling_e2e,omitempty"`
 	// MustClosePort: see Scn.MustClosePort
 	MustClosePort bool   `json:"must_close_port,omitempty"`
 	RawQuery      string `json:"raw_query,omitempty"`
@@ -123,6 +128,9 @@ func (hangTransport) RoundTrip(req *http.Request) (*http.Response, error) {
 }
 
 type RTResult struct {
+	// Res2 / Err2: the sibling request's answer (RTScn.Overlap2)
+	Res2 *result.Results
+	Err2 error
 	// ChangedAfterReturn: the result document changed after the call had returned (RTScn.LingerMs)
 	ChangedAfterReturn string
 	X                  *vsched.Exec
@@ -202,7 +210,7 @@ func RunRT2(cfg vsched.Config, sc *RTScn) *RTResult { return runRT(cfg, sc, true
 func RunRT(cfg vsched.Config, sc *RTScn) *RTResult { return runRT(cfg, sc, false) }
 
 func runRT(cfg vsched.Config, sc *RTScn, twice bool) *RTResult {
-	twice = twice || sc.Overlap
+	twice = twice || sc.Overlap || sc.Overlap2
 	keepProcessState := false
 	if sc.After != nil {
 		prev := *sc.After
@@ -228,6 +236,9 @@ func runRT(cfg vsched.Config, sc *RTScn, twice bool) *RTResult {
 		if twice {
 			nq *= 2
 		}
+		if sc.Overlap2 {
+			nq = sc.Queries + sc.SiblingQueries
+		}
 		for q := 0; q < nq; q++ {
 			scns = append(scns, mk(v, flow))
 			flow++
@@ -243,6 +254,9 @@ func runRT(cfg vsched.Config, sc *RTScn, twice bool) *RTResult {
 		ne := sc.E2e
 		if twice {
 			ne *= 2
+		}
+		if sc.Overlap2 {
+			ne = sc.E2e + sc.SiblingE2e
 		}
 		for e := 0; e < ne; e++ {
 			scns = append(scns, mk(ev, flow))
@@ -543,7 +557,13 @@ func runRT(cfg vsched.Config, sc *RTScn, twice bool) *RTResult {
 					if k == 1 && sc.Overlap {
 						params.SkipPrivateHops = false
 					}
+					if k == 1 && sc.Overlap2 {
+						params.TracerouteQueries, params.E2eQueries = sc.SiblingQueries, sc.SiblingE2e
+					}
 					res, err := tr.RunTraceroute(context.Background(), params)
+					if k == 1 {
+						out.Res2, out.Err2 = res, err
+					}
 					if k == 0 {
 						out.Res, out.Err = res, err
 					}
